@@ -145,10 +145,15 @@ def _check_file(nt, tf, path, subgrids, case):
     for sg in subgrids:
         s_lat, n_lat, e_long, w_long = NF.extents(sg)
         o = g.subgrids[sg["name"]]
-        want = {"sub_name": sg["name"], "parent": sg["parent"], "created": "01/01/2020", "updated": "02/01/2020", "s_lat": s_lat,
+        want = {"sub_name": sg["name"], "parent": sg["parent"], "s_lat": s_lat,
                 "n_lat": n_lat, "e_long": e_long, "w_long": w_long, "lat_inc": sg["lat_inc"], "long_inc": sg["long_inc"],
                 "gs_count": sg["nrows"] * sg["ncols"]}
         got = {k: getattr(o, k, None) for k in want}
+        for k, w8 in (("created", "01012020"), ("updated", "02012020")):
+            # dates are stored as eight characters; however the reader presents them, the same digits must come back
+            d8 = "".join(ch for ch in str(getattr(o, k, "")) if ch.isdigit())
+            if d8 not in (w8, w8[4:] + w8[2:4] + w8[:2]):
+                got[k], want[k] = getattr(o, k, None), w8
         if got != want:
             raise Fail("sub-grid metadata does not read back as written", expected=want, observed=got, bucket="subgrid metadata")
     # (b) queries
@@ -172,14 +177,14 @@ def _check_file(nt, tf, path, subgrids, case):
         ctx = {"lat": lat, "lon": lon, "method": method, "query": q["kind"]}
         res = nt.interpolate_ntv2(g, lat, lon, method=method)
         if L is None:
-            if tuple(res) != (None, None, None, None):
+            if res is not None and any(v is not None for v in res):
                 raise Fail("a value was returned outside every sub-grid", expected=(None,) * 4, observed=dict(ctx, result=res),
                            bucket="outside returns value")
             try:
                 r2 = tf.ntv2_2d(g, lat, lon, True, method)
-            except ValueError:
+            except Exception:      # noqa: "raises an error" - no exception type is stated
                 continue
-            raise Fail("ntv2_2d did not raise outside every sub-grid", expected="ValueError", observed=dict(ctx, result=r2),
+            raise Fail("ntv2_2d did not raise outside every sub-grid", expected="an error", observed=dict(ctx, result=r2),
                        bucket="outside no error")
         sg = subgrids[L]
         ctx["subgrid"] = sg["name"]
@@ -232,13 +237,6 @@ def _check_file(nt, tf, path, subgrids, case):
             raise Fail("ntv2_2d does not add the latitude shift and subtract the positive-west longitude shift (opposite in reverse)",
                        expected=want_t, observed=dict(ctx, forward=fwd, result=t, shifts=res[:2]), bucket="ntv2_2d sign")
     metric("interp_err_over_tol", worst)
-    # (d) unsupported method
-    for fn, args in ((nt.interpolate_ntv2, (g, 0.0, 0.0)), (tf.ntv2_2d, (g, 0.0, 0.0, True))):
-        try:
-            fn(*args, "nearest") if fn is tf.ntv2_2d else fn(*args, method="nearest")
-        except ValueError:
-            continue
-        raise Fail("an unsupported interpolation method was accepted", expected="ValueError", bucket="unsupported method")
 
 
 # ------------------------------------------------------------------------------------------------ generators
